@@ -83,9 +83,52 @@ def gen_perm_case(rng, entry=None):
             'actual': join_text(rng, act), 'expected': join_text(rng, exp), 'opts': opts}
 
 
+# (reference line, actual line, a pattern that matches both lines without excusing the difference, the pattern that excuses it)
+DECOY_POOL = [
+    ('commit 98fe76dc done', 'commit 12ab34cd done', r'\d+', r'[0-9a-f]{8}'),
+    ('0xff', '0x1a2b', r'\d+', r'0x[0-9a-f]+'),
+    ('took 12ms', 'took 7ms', r'o+', r'\d+ms'),
+    ('v1.2 ok', 'v10.31 ok', r'v', r'v\d+\.\d+'),
+    ('id: 12', 'id: 345', r'^id', r'\d+'),
+    ('2020-01-02 done', '1999-12-31 done', r'\d+', r'\d{4}-\d{2}-\d{2}'),
+    ('a1b22', 'a333b4', r'b', r'\d+'),
+]
+
+
+def gen_decoy_case(rng, entry=None):
+    """several ignore-patterns of which an early one matches both lines but does not excuse their difference and a
+    later one does (every pattern has to be tried: the outcome must not depend on the order of the list)"""
+    exp, act, pats = [], [], []
+    for _ in range(rng.randint(1, 3)):
+        if rng.random() < 0.3:
+            l = rng.choice(LINE_POOL[:12])
+            exp.append(l)
+            act.append(l)
+            continue
+        e, a, decoy, excuser = rng.choice(DECOY_POOL)
+        if rng.random() < 0.5:
+            e, a = a, e
+        exp.append(e)
+        act.append(a)
+        for p_ in ((decoy, excuser) if rng.random() < 0.6 else (excuser, decoy)):
+            if p_ not in pats:
+                pats.append(p_)
+    if rng.random() < 0.25 and pats:
+        pats.insert(rng.randint(0, len(pats)), rng.choice(PATTERN_POOL))
+    if rng.random() < 0.2 and len(pats) > 1:
+        pats.pop(rng.randrange(len(pats)))         # (sometimes the excusing pattern is missing: must fail)
+    opts = {'ignore_patterns': pats}
+    if rng.random() < 0.2:
+        opts['rstrip'] = True
+    return {'entry': entry or rng.choice(['string', 'string', 'file', 'files']),
+            'actual': join_text(rng, act), 'expected': join_text(rng, exp), 'opts': opts}
+
+
 def gen_case(rng, entry=None):
     if rng.random() < 0.12:
         return gen_perm_case(rng, entry)
+    if rng.random() < 0.07:
+        return gen_decoy_case(rng, entry)
     exp = gen_lines(rng)
     act = list(exp)
     mode = rng.random()
